@@ -31,6 +31,9 @@ type Case struct {
 	Variables map[string]any          `json:"variables,omitempty"`
 	PlanSeed  uint64                  `json:"plan_seed"`
 	Overrides map[string]plan.Outcome `json:"overrides,omitempty"`
+	// DefaultRecover: the server keeps gqlgen's own recover hook (graphql.DefaultRecover) instead
+	// of the harness's counting one
+	DefaultRecover bool `json:"default_recover,omitempty"`
 }
 
 func (c Case) Plan() *plan.Plan {
